@@ -10,13 +10,15 @@ def main():
     os.chdir(sys.argv[2])                       # a current directory that holds none of the data files
     import udparsers.m2c00.m2c00 as plugin
     import io_drawer.drawer_type as dt
-    out = {"plugin_file": plugin.__file__, "drawer_type_file": dt.__file__, "results": []}
+    import locale
+    out = {"plugin_file": plugin.__file__, "drawer_type_file": dt.__file__, "results": [],
+           "text_encoding": locale.getpreferredencoding(False)}
     for sub, ver, hx in cases:
         try:
             out["results"].append(json.loads(plugin.parseUDToJson(sub, ver, memoryview(bytes.fromhex(hx)))))
         except BaseException as e:      # noqa
             out["results"].append({"RAISED": repr(e)})
-    json.dump(out, sys.stdout)
+    sys.stdout.write(json.dumps(out, ensure_ascii=True))
 
 
 main()
